@@ -158,7 +158,8 @@ class Symex:
     """
 
     def __init__(self, model, inline=None, hooks=None, unroll=2, max_paths=512, max_steps=200000, what="?",
-                 assume_asserts=True, isinstance_hook=None, attr_hook=None, max_depth=12, cut_loops=False):
+                 assume_asserts=True, isinstance_hook=None, attr_hook=None, max_depth=12, cut_loops=False,
+                 obj_identity=False):
         self.model = model
         self.inline = inline or (lambda q: False)
         self.hooks = dict(hooks or {})
@@ -171,6 +172,9 @@ class Symex:
         self.attr_hook = attr_hook
         self.max_depth = max_depth
         self.cut_loops = cut_loops
+        # obj_identity: abstract records (Obj) are concrete individuals - ``is``/``==``/``in`` between a record and
+        # another record, None or a plain value are decided by identity instead of becoming symbolic atoms
+        self.obj_identity = obj_identity
         self._modconst = {}
         self.fresh_n = 0
         self.on_start = None
@@ -665,6 +669,12 @@ class Symex:
             self.unsupported(node, f"arithmetic on {type(a).__name__}, {type(b).__name__}")
 
     def compare(self, opname, a, b, node):
+        if self.obj_identity and opname in ("is", "is not", "==", "!=") and (isinstance(a, Obj) or isinstance(b, Obj)) \
+                and all(isinstance(x, Obj) or _plain(x) for x in (a, b)):
+            return (a is b) if opname in ("is", "==") else (a is not b)
+        if self.obj_identity and opname in ("in", "not in") and isinstance(a, Obj) \
+                and isinstance(b, (list, tuple, set, frozenset, dict)) and all(isinstance(e, Obj) or _plain(e) for e in b):
+            return any(e is a for e in b) == (opname == "in")
         if isinstance(a, Ext):
             a = sym(a.name)
         if isinstance(b, Ext):
@@ -708,6 +718,9 @@ class Symex:
             self.unsupported(node, "comparison of unsupported values")
 
     def contains(self, coll, x, node):
+        if self.obj_identity and isinstance(x, Obj) and isinstance(coll, (list, tuple, set, frozenset, dict)) \
+                and all(isinstance(e, Obj) or _plain(e) for e in coll):
+            return any(e is x for e in coll)
         if isinstance(coll, Obj):
             coll = coll.term
         if isinstance(x, Obj):
